@@ -56,7 +56,7 @@ Definition qnodes_of_cbm (C : cbm) : list qnode :=
   fold_right ins_q [] (map (fun kc => (fst kc, c_cls (snd kc), c_oth (snd kc), sortN (c_con (snd kc)),
                                         c_ld (snd kc), c_cd (snd kc))) (Cbm14Spec.nodes C)).
 Definition vedges_of_cbm (C : cbm) : list vedge :=
-  sort_edges (map (fun kd => (fst (fst kd), snd (fst kd), fst (fst (snd kd)), snd (fst (snd kd)), snd (snd kd)))
+  sort_edges (map (fun kd => (fst (fst kd), snd (fst kd), fst (snd kd), snd (snd kd), false))
                   (Cbm14Spec.edges C)).
 
 Definition opt_pair_eqb (a b : option (N * N)) : bool :=
@@ -77,11 +77,6 @@ Definition cbm_matches (C : cbm) (v : view) : bool :=
   end.
 
 Definition is_empty (C : cbm) : bool := match Cbm14Spec.nodes C with [] => true | _ => false end.
-(* every node of the source is already in the combined model: on the in-memory backend merge_adm then
-   raises (code 3) AFTER completing the merge - known finding F3 *)
-Definition all_common (C : cbm) (A : adm) : bool :=
-  negb (is_empty C) && forallb (fun ka => hasn (fst ka) (Cbm14Spec.nodes C)) (adm_nodes A).
-
 Fixpoint spec_hist (adms : list (N * adm)) (s : hstate) (h : list (op * obs)) : bool :=
   match h with
   | [] => true
@@ -95,7 +90,7 @@ Fixpoint spec_hist (adms : list (N * adm)) (s : hstate) (h : list (op * obs)) : 
               if Cbm14Spec.mem g (map adm_id (h_ms s)) then true else
               match smerge (h_cur s) A with
               | None => negb (rc =? 0)
-              | Some C => (rc =? (if all_common (h_cur s) A then 3 else 0)) && cbm_matches C vc
+              | Some C => (rc =? 0) && cbm_matches C vc
                           && spec_hist adms (hstep s (HMerge A)) r
               end
           end
